@@ -53,9 +53,54 @@ def gen_timer_scenario(rng, sid):
     return ("HANDOFF", sid, lines), feat, seed
 
 
+def gen_link_scenario(rng, sid):
+    """hand-offs around link control: two processes share node 0, a third lives on node 1; chatty programs send to
+    same-node and cross-node peers; a link operation (disconnect / drop_incoming / drop_outgoing / disable_link) on one
+    of the nodes is applied with messages already in flight, then the snapshot is taken.  No faults."""
+    seed = rng.randrange(1, 1 << 20)
+    lines = ["SEED %d" % seed]
+    placement = [0, 0, 1]
+    for p in range(3):
+        nrows = rng.choice([1, 2])
+        lines.append("PROG %d %d 0 0 %d" % (p, rng.choice([2, 3]), nrows))
+        for _ in range(nrows):
+            k = rng.choice([1, 2, 2])
+            acts = ["S %d %s" % (rng.choice([q for q in range(3) if q != p]), gen_mc.gen_msg(rng)) for _ in range(k)]
+            if rng.random() < 0.3:
+                acts.append("L %s" % gen_mc.gen_msg(rng))
+            lines.append("ROW %d %d %s" % (p, len(acts), " ".join(acts)))
+    lines.append("DRAWS")
+    lines += ["OP ADDNODE 0", "OP ADDNODE 1"]
+    for p in range(3):
+        lines.append("OP ADDPROC %d %d" % (p, placement[p]))
+    lines.append("OP NET DELAY %d" % f64_bits(rng.choice([0.5, 1.0])))
+    def netop():
+        n = rng.randrange(2)
+        return rng.choice(["DISCONNECT %d" % n, "DROPIN %d" % n, "DROPOUT %d" % n, "DISABLELINK %d %d" % (n, 1 - n),
+                           "DISABLELINK %d %d" % (n, n)])
+    if rng.random() < 0.4:
+        lines.append("OP NET " + netop())
+    for _ in range(rng.choice([1, 2])):
+        lines.append("OP LOCAL %d %s" % (rng.randrange(3), gen_mc.gen_msg(rng)))
+    for _ in range(rng.choice([0, 0, 1])):
+        lines.append("OP STEP")
+    if rng.random() < 0.7:
+        lines.append("OP NET " + netop())
+    lines.append("SNAPSHOT")
+    lines += gen_mc.clock_lines([0.0], 40)
+    lines += ["PRED INV NONE", "PRED GOAL NOEVENTS", "PRED PRUNE NONE", "PRED COLLECT NONE",
+              "RUN BFS FULL 0 %d" % gen_mc.FUEL, "CONTINUE"]
+    lines += ["OP STEP"] * 12
+    feat = {"timers": False, "override": False, "clock": False, "rand_progs": False, "drop": 0.0, "dupl": 0.0, "corrupt": 0.0,
+            "rand_delay": False, "crash": False, "netops": True, "skew": False, "links": True, "link_handoff": True}
+    return ("HANDOFF", sid, lines), feat, seed
+
+
 def gen_scenario(rng, sid, clock_free=True):
     if rng.random() < 0.4:
         return gen_timer_scenario(rng, sid)
+    if rng.random() < 0.3:
+        return gen_link_scenario(rng, sid)
     feat = gen_sim.gen_features(rng)
     feat["rand_progs"] = False            # draw-free programs (C04's quantifier)
     if clock_free:
